@@ -22,7 +22,10 @@ BOUNDS = {
              'promised id solver-chosen) from every distinct observer state of the catalogue '
              '(all slices, both roles); plus header lists with ONE fully symbolic field (name 2, 7 '
              'or 10 cells, value 1 cell) placed after valid indexable fields',
-    'HEADER_TABLE_SIZE': '0..2^32-1 symbolic, received alone or with any other setting',
+    'HEADER_TABLE_SIZE': '0..2^32-1 symbolic, received alone or with any other setting; '
+                         'table_size_pair: real hpack on a connected pair, 3 solver-chosen steps '
+                         '(HEADER_TABLE_SIZE in {0, 64, 4096, 8192} | another setting | a header '
+                         'block) between header blocks',
 }
 OUTSIDE = ['what the HPACK encoder does with the fields it is shown (hpack contract): the '
            'encoder is a recording model that notes every field AS IT IS PULLED from the '
@@ -74,12 +77,14 @@ def make_fsm(client, history, upgrade):
             ctx = ops.replay(client, history, upgrade=upgrade)
         me = ctx.me
         op = sym_choice('op', alpha)
-        prio = sym_choice('priority', ['none', 'weight', 'all'])
         kw = {}
-        if op[0] == 'send_headers' and prio != 'none':
-            kw['priority_weight'] = sym_int('weight', -1, 258, default=16)
-            if prio == 'all':
+        if op[0] == 'send_headers':
+            # each priority argument independently absent or symbolic
+            if sym_bool('has_weight'):
+                kw['priority_weight'] = sym_int('weight', -1, 258, default=16)
+            if sym_bool('has_depends_on'):
                 kw['priority_depends_on'] = sym_int('depends_on', 0, 7, default=0)
+            if sym_bool('has_exclusive'):
                 kw['priority_exclusive'] = sym_bool('exclusive')
         rec = IncrementalRecorder()
         me.encoder = rec
@@ -103,6 +108,87 @@ def make_fsm(client, history, upgrade):
             note('ok')
             check(rec.calls == 1, 'encoder-called-%d-times' % rec.calls, F.op_label(op))
     return h
+
+
+def make_table_size_pair(sender_client):
+    """real hpack on both sides of a connected pair: the receiver changes
+    HEADER_TABLE_SIZE (and other settings) between header blocks of the sender, in any
+    solver-chosen order; every block must arrive and decode to what was sent"""
+    from props import c01
+    SIZES = (0, 64, 4096, 8192)
+    STEPS = [('hts', v) for v in SIZES] + [('other',), ('hdr',)]
+
+    def h():
+        with h2h.native():
+            p = c01.Pair()
+            if not sender_client:
+                exc, cap, em = c01.do_call(p, 'c', ('send_headers', 1, 'post', False), False)
+                c01.exchange(p, 'c', em)
+        S, R = ('c', 's') if sender_client else ('s', 'c')
+        snd, rcv = p.side(S), p.side(R)
+        nsent = 0
+
+        def send_block():
+            n = send_block.n
+            send_block.n += 1
+            hdrs = [(b'x-field-%d' % (n % 2), b'value-%d' % (n % 3)), (b'x-always', b'same')]
+            cap = models.Out(snd.me)
+            if sender_client:
+                full = list(h2h.REQ) + hdrs
+                snd.me.send_headers(1 + 2 * n, full, end_stream=True)
+            else:
+                full = [(b':status', b'103')] + hdrs
+                snd.me.send_headers(1, full)
+            log = c01.exchange(p, S, c01._take(snd, cap))
+            above = any(x > pending[-1] for x in pending[:-1]) if pending else False
+            del pending[:]
+            for d, evs, exc in log:
+                msg = str(exc)
+                why = ('exceeded-max-table-size' if 'exceeded max allow' in msg else
+                       'did-not-shrink-table' if 'did not shrink' in msg else
+                       'invalid-table-index' if 'nvalid table index' in msg else
+                       type(exc).__name__)
+                check(exc is None, 'header-block-rejected-by-peer:%s%s' % (
+                    why, ':intermediate-size-above-final' if above else ''), repr(exc)[:100])
+            if any(x is not None for _d, _e, x in log):
+                raise Rejected()
+            if log and log[0][2] is None:
+                evs = [e for e in log[0][1] if hasattr(e, 'headers')]
+                check(len(evs) == 1 and [tuple(x) for x in evs[0].headers] ==
+                      [tuple(x) for x in full], 'headers-differ', None)
+        send_block.n = 0
+        pending = []        # table sizes announced since the last header block
+        try:
+            run(send_block, pending, p, R, rcv)
+        except Rejected:
+            note('rejected')
+            return
+        note('exchanged')
+        c01.check_hpack_sync(p)
+
+    def run(send_block, pending, p, R, rcv):
+        send_block()
+        for i in range(3):
+            step = sym_choice('step%d' % i, STEPS)
+            if step[0] == 'hdr':
+                send_block()
+                continue
+            cap = models.Out(rcv.me)
+            if step[0] == 'hts':
+                pending.append(step[1])
+                rcv.me.update_settings({SettingCodes.HEADER_TABLE_SIZE: step[1]})
+            else:
+                rcv.me.update_settings({SettingCodes.INITIAL_WINDOW_SIZE: 70000 + i})
+            log = c01.exchange(p, R, c01._take(rcv, cap))
+            for d, evs, exc in log:
+                check(exc is None, 'settings-exchange-rejected:%s' % type(exc).__name__, None)
+        send_block()
+        send_block()
+    return h
+
+
+class Rejected(Exception):
+    pass
 
 
 def _feed_peer(dec, ctx, me):
@@ -170,7 +256,9 @@ def h_table_size(client, other):
                                          8: 1}[int(other)], default=None)
         h2h.deliver(me, [f])
         note('applied')
-        check(rec.size_sets == [v] or (len(rec.size_sets) == 1 and s_eq(rec.size_sets[0], v)),
+        # (re-announcing the size in use need not reach the encoder)
+        check((len(rec.size_sets) == 0 and s_eq(v, 4096)) or
+              (len(rec.size_sets) == 1 and s_eq(rec.size_sets[0], v)),
               'encoder-table-size-not-updated', None)
         check(s_eq(rec.header_table_size, v), 'encoder-table-size-stale', None)
     return h
@@ -197,6 +285,10 @@ def shards(tier, seed):
         for other in [None] + [SettingCodes(x) for x in (2, 3, 4, 5, 6, 8)]:
             out.append(Shard('table_size/%s/with=%s' % (role, int(other) if other else 'none'),
                              h_table_size(client, other), expect=['applied']))
+    for sender_client in (True, False):
+        out.append(Shard('table_size_pair/sender=%s' % ('client' if sender_client else 'server'),
+                         make_table_size_pair(sender_client), budget=300,
+                         expect=['exchanged', 'rejected']))
     for block in ('request', 'response', 'push'):
         for nlen in (2, 7, 10):
             for after in (0, 2):
